@@ -156,6 +156,9 @@ v('c16-fabricated-newline', 'break', ['C16'], T, ("    elif keep_ends:\n        
 v('c16-splitlines', 'break', ['C16'], T, ("    lines = data.split(newline)\n", "    lines = data.splitlines()\n"))
 v('c16-drop-last-always', 'break', ['C16'], T, ("    if data.endswith(newline):\n        lines.pop()\n    elif keep_ends:", "    lines.pop()\n    if False:\n        pass\n    elif keep_ends and False:"))
 v('c16-benign-plus', 'benign', ['C16', 'C08', 'C01'], T, ("            b'%s%s' % (_line, newline)\n", "            _line + newline\n"))
+v('c16-fastpath-benign', 'benign', ['C16', 'C01'], T, ("    lines = data.split(newline)\n", "    if newline not in data:\n        return [data]\n\n    lines = data.split(newline)\n"))
+v('c16-fastpath-single-line', 'break', ['C16'], T, ("    lines = data.split(newline)\n", "    pos = data.find(newline)\n\n    if pos == -1 or pos + len(newline) == len(data):\n        return [data]\n\n    lines = data.split(newline)\n"))
+v('c16-newline-in-template', 'break', ['C16'], T, ("            b'%s%s' % (_line, newline)\n", "            (b'%s' + newline) % _line\n"))
 v('c16-benign-del', 'benign', ['C16', 'C08'], T, ("        lines.pop()\n", "        del lines[-1]\n"))
 
 
